@@ -562,7 +562,7 @@ func c14(c *Ctx) {
 			}
 			for _, p := range constsOfType(pbN) {
 				_, ok := dt[p]
-				r.Check("enum-decoded:"+en.pbType+":"+p, ok, eh.Pos(), "receiver handles "+p+" explicitly")
+				r.Check("enum-decoded:"+en.pbType+":"+p, ok || dHasDef, eh.Pos(), "receiver handles "+p+" (explicitly or through its default case; the round trip itself is checked per sent constant above)")
 			}
 			if dHasDef {
 				r.Check("enum-default:"+en.pbType, isZeroConst(gsN, dd), eh.Pos(), "unknown wire values fall back to the zero value ("+dd+")")
@@ -620,6 +620,26 @@ func c14(c *Ctx) {
 				}
 			}
 			collect(rt.Results[0], rt.Block(), 0)
+			// the compressor may be selected together with its encoding and called through a variable:
+			// two phis of one block, paired edge by edge
+			if pe, ok := rt.Results[0].(*ssa.Phi); ok {
+				for _, cl := range callsIn(sc) {
+					if cl.Common().IsInvoke() || staticCallee(cl) != nil {
+						continue
+					}
+					pf, ok := cl.Common().Value.(*ssa.Phi)
+					if !ok || pf.Block() != pe.Block() {
+						continue
+					}
+					for i := range pf.Edges {
+						f, isF := pf.Edges[i].(*ssa.Function)
+						enc, isS := constString(pe.Edges[i])
+						if isF && isS && strings.HasPrefix(f.Name(), "CompressWith") {
+							wr[f.Name()] = enc
+						}
+					}
+				}
+			}
 			for _, p := range pairs {
 				for _, cl := range callsIn(sc) {
 					if cal := staticCallee(cl); cal != nil && strings.HasPrefix(cal.Name(), "CompressWith") {
@@ -700,38 +720,45 @@ func c14(c *Ctx) {
 			a := cl.Common().Args
 			r.Check("level:"+cal.Name(), len(a) == 3 && strings.HasSuffix(pathOf(a[2]), ".compressionLevel"), cl.Pos(), "compression level argument "+pathOf(a[len(a)-1]))
 		}
-		// identity
+		// identity: the value announced in the Content-Encoding header is, on every path, either what
+		// serializeAndCompress returned or the constant "identity" arising where nothing was compressed
 		okId := false
-		eachInstr(cp, func(in ssa.Instruction) {
-			if ph, ok := in.(*ssa.Phi); ok && ph.Comment == "encoding" {
-				for i, e := range ph.Edges {
-					if s, isS := constString(e); isS && s == "identity" {
-						// that edge must come from the branch that only serialises
-						pred := ph.Block().Preds[i]
-						hasCompress := false
-						for _, cl := range callsIn(cp) {
-							if cal := staticCallee(cl); cal != nil && cal.Name() == "serializeAndCompress" && (cl.Block() == pred || cl.Block().Dominates(pred)) {
-								hasCompress = true
-							}
+		var headerVal ssa.Value
+		for _, f := range WithAnon(cp) {
+			for _, cl := range callsTo(f, "(net/http.Header).Set") {
+				if s, isS := constString(cl.Common().Args[1]); isS && strings.Contains(strings.ToLower(s), "encoding") {
+					headerVal = cl.Common().Args[2]
+				}
+			}
+		}
+		if headerVal != nil {
+			leaves := stringLeaves(headerVal)
+			nId, bad := 0, ""
+			for _, lf := range leaves {
+				if s, isS := constString(lf.V); isS && s == "identity" {
+					compressed := false
+					for _, cl := range callsIn(cp) {
+						if cal := staticCallee(cl); cal != nil && cal.Name() == "serializeAndCompress" && lf.At != nil && (cl.Block() == lf.At || cl.Block().Dominates(lf.At)) {
+							compressed = true
 						}
-						okId = !hasCompress
+					}
+					if compressed {
+						bad = "\"identity\" announced after compressing"
+					}
+					nId++
+					continue
+				}
+				if ex, ok := lf.V.(*ssa.Extract); ok && ex.Index == 0 {
+					if cl, ok := ex.Tuple.(*ssa.Call); ok && staticCallee(cl) != nil && staticCallee(cl).Name() == "serializeAndCompress" {
+						continue
 					}
 				}
-			}
-		})
-		for _, st := range storesIn(cp) {
-			if valueName(st.Addr) != "encoding" {
-				continue
-			}
-			if s, isS := constString(st.Val); isS && s == "identity" {
-				hasCompress := false
-				for _, cl := range callsIn(cp) {
-					if cal := staticCallee(cl); cal != nil && cal.Name() == "serializeAndCompress" && (cl.Block() == st.Block() || cl.Block().Dominates(st.Block())) {
-						hasCompress = true
-					}
+				if s, isS := constString(lf.V); isS && s == "" {
+					continue // the zero value before assignment / on the error path
 				}
-				okId = !hasCompress
+				bad = "header value may be " + pathOf(lf.V)
 			}
+			okId = nId >= 1 && bad == ""
 		}
 		r.Check("identity:writer", okId, cp.Pos(), "uncompressed bodies are announced as \"identity\"")
 		// reader: identity leads to the success return without decompression
@@ -754,7 +781,7 @@ func c14(c *Ctx) {
 				if s, isS := constString(cl.Common().Args[1]); isS && strings.Contains(strings.ToLower(s), "encoding") {
 					hset = s
 					ev := cl.Common().Args[2]
-					r.Check("header:value-is-encoding", valueName(ev) == "encoding", cl.Pos(), "Content-Encoding header value is "+pathOf(ev))
+					_ = ev // its provenance is decided by identity:writer above
 				}
 			}
 		}
@@ -1231,11 +1258,94 @@ func mapHome(v ssa.Value) string {
 			}
 		case *ssa.Store:
 			if x.Val == ssa.Value(mk) {
+				// a field of an object under construction: follow the object to where it is put
+				if fa, ok := x.Addr.(*ssa.FieldAddr); ok {
+					if al, ok := fa.X.(*ssa.Alloc); ok {
+						if h := allocHome(al, 0); h != "" {
+							return h + "." + fieldName(fa.X.Type(), fa.Field)
+						}
+					}
+				}
 				return pathOf(x.Addr)
 			}
 		}
 	}
 	return pathOf(v)
+}
+
+// strLeaf is one origin of a value (below phis, local cells and captured variables) and the block
+// in which it arises.
+type strLeaf struct {
+	V  ssa.Value
+	At *ssa.BasicBlock
+}
+
+func stringLeaves(v ssa.Value) []strLeaf {
+	var out []strLeaf
+	seen := map[ssa.Value]bool{}
+	var walk func(v ssa.Value, at *ssa.BasicBlock, d int)
+	cellStores := func(cell ssa.Value, d int) bool {
+		n := 0
+		for _, ref := range referrers(cell) {
+			if st, ok := ref.(*ssa.Store); ok && st.Addr == cell {
+				n++
+				walk(st.Val, st.Block(), d+1)
+			}
+		}
+		return n > 0
+	}
+	walk = func(v ssa.Value, at *ssa.BasicBlock, d int) {
+		if d > 12 || seen[v] {
+			return
+		}
+		seen[v] = true
+		switch x := v.(type) {
+		case *ssa.Phi:
+			for i, e := range x.Edges {
+				walk(e, x.Block().Preds[i], d+1)
+			}
+			return
+		case *ssa.ChangeType:
+			walk(x.X, at, d+1)
+			return
+		case *ssa.UnOp:
+			if x.Op == token.MUL {
+				switch c := x.X.(type) {
+				case *ssa.Alloc:
+					if cellStores(c, d) {
+						return
+					}
+				case *ssa.FreeVar:
+					if al := cellOf(c); al != nil && cellStores(al, d) {
+						return
+					}
+				}
+			}
+		}
+		out = append(out, strLeaf{v, at})
+	}
+	walk(v, nil, 0)
+	return out
+}
+
+// allocHome: where the object built in al ends up (map element or field), "" if unknown.
+func allocHome(al *ssa.Alloc, d int) string {
+	if d > 3 {
+		return ""
+	}
+	for _, ref := range referrers(al) {
+		switch x := ref.(type) {
+		case *ssa.MapUpdate:
+			if x.Value == ssa.Value(al) {
+				return pathOf(x.Map) + "[" + pathOf(x.Key) + "]"
+			}
+		case *ssa.Store:
+			if x.Val == ssa.Value(al) {
+				return pathOf(x.Addr)
+			}
+		}
+	}
+	return ""
 }
 
 // valueCase is one way a value can arise (a leaf below phis) with the branch conditions known there.
